@@ -67,7 +67,7 @@ def walk_tokens(doc, tokens):
 
 class C14(Prop):
     ID = "C14"
-    QUICK = 1500
+    QUICK = 3500
     THOROUGH = 30000
     RULE = ("case = (JSON document with hostile keys, a set of optionally percent-encoded characters, 1-4 negative "
             "pointers).  Positive half: for EVERY location of the document the pointer is encoded (RFC 6901 escaping, "
@@ -202,6 +202,13 @@ class C14(Prop):
             if not ok or other:
                 res.fail(("e2e", "wrong-target"), "schema %s: marker accepted=%r, other accepted=%r" % (
                     impl.cj(holder_schema)[:400], ok, other))
+
+
+    def extra_stages(self, tier, seed, acc):
+        if tier == "thorough":
+            from .. import harness
+            harness.fuzz_stage(self, acc, "pbt.fuzz.c14_fuzz", seed, 150000, jobs=8, max_len=200,
+                               dictionary=["~0", "~1", "~01", "%25", "%2F", "/", "-", "01", "+1"])
 
 
 PROP = C14()
